@@ -263,3 +263,7 @@ mod test {
         claim::assert_matches!(unescape("\\u{FFFFFF}"), Err(_));
     }
 }
+
+// verification hook: harness text lives outside the repository (see MANIFEST.hooks)
+#[cfg(any(kani, sudachi_verif))]
+include!(concat!(env!("SUDACHI_VERIF_DIR"), "/dic__build__parse.rs"));
